@@ -148,6 +148,7 @@ type behaviour struct {
 	rcode      int
 	partial    bool // tcp: send half a frame then stall
 	closeAfter bool // tcp: close the connection right after the reply (stale pooled connection)
+	stranger   bool // udp: before the server's reply, a datagram with the query's ID arrives from another address
 }
 
 type script func(ex int, proto string) behaviour
@@ -251,6 +252,9 @@ func (s *server) emit(ev string, kv ...any) {
 	tr.Emit(ev, append([]any{"srv", s.name}, kv...)...)
 }
 
+var strangerOnce sync.Once
+var strangerConn *net.UDPConn
+
 func (s *server) serveUDP() {
 	buf := make([]byte, 65535)
 	for {
@@ -271,6 +275,14 @@ func (s *server) serveUDP() {
 		b := s.sc(ex, "udp")
 		if b.drop {
 			continue
+		}
+		if b.stranger {
+			// somebody else's socket answers first (same ID, an answer the server never gave): an upstream socket
+			// takes replies from its server only
+			strangerOnce.Do(func() { strangerConn, _ = net.ListenUDP("udp", &net.UDPAddr{IP: ra.IP}) })
+			if strangerConn != nil {
+				strangerConn.WriteToUDP(mkReply(q, q.Id, tokCtr.Add(1), behaviour{}), ra)
+			}
 		}
 		send := func(qid uint16, bb behaviour) {
 			tok := tokCtr.Add(1)
